@@ -55,7 +55,7 @@ RUSTFLAGS = '--cfg libp2p_verif --cfg sha2_backend="soft"'
 
 TIER_CAPS = {
     # per-harness wall-clock cap (s), address-space cap (GiB), parallel workers
-    "quick": dict(timeout=900, mem_gib=20, workers=8),
+    "quick": dict(timeout=1800, mem_gib=20, workers=8),
     "thorough": dict(timeout=3600, mem_gib=32, workers=6),
 }
 
@@ -100,13 +100,16 @@ def harness_names(prop, tier):
     return names
 
 
-def cargo_kani_base(group, feats):
+EXTRA_KANI_ARGS = []
+
+
+def cargo_kani_base(group, feats, extra=True):
     return [
         "cargo", "kani",
         "--target-dir", os.path.join(TARGET, group),
         "-Z", "stubbing",
         "--features", ",".join(feats),
-    ]
+    ] + (EXTRA_KANI_ARGS if extra else [])
 
 
 def limit(mem_gib):
@@ -119,7 +122,8 @@ def limit(mem_gib):
 
 def run_harness(group, feats, name, caps, logdir, extra=()):
     """Run one harness; returns a result dict."""
-    cmd = cargo_kani_base(group, feats) + ["--harness", MODULE_OF.get(name, "") + "::" + name, "--exact"] + list(extra)
+    # --cbmc-args swallows everything after it: per-property extra args go last
+    cmd = cargo_kani_base(group, feats, extra=False) + ["--harness", MODULE_OF.get(name, "") + "::" + name, "--exact"] + list(extra) + EXTRA_KANI_ARGS
     log = os.path.join(logdir, name + ".log")
     t0 = time.time()
     status = None
@@ -270,6 +274,9 @@ def main(argv):
     spec = registry.PROPS[prop]
     group = spec["group"]
     tier = a.tier
+    # per-property extra kani/CBMC options (e.g. a larger field-sensitivity array size so that
+    # concrete arrays > 64 elements keep their contents concrete during symbolic execution)
+    EXTRA_KANI_ARGS[:] = spec.get("kani_args", [])
     caps = dict(TIER_CAPS[tier])
     caps.update(spec.get("caps", {}).get(tier, {}))
     if a.workers:
@@ -297,7 +304,7 @@ def main(argv):
     t0 = time.time()
 
     # 1. compile + codegen every harness of this property from /repo's current tree
-    cg_cmd = cargo_kani_base(group, feats) + ["--only-codegen"]
+    cg_cmd = cargo_kani_base(group, feats, extra=False) + ["--only-codegen"]
     cg_log = os.path.join(logdir, "_codegen.log")
     with open(cg_log, "w") as out:
         rc = subprocess.call(cg_cmd, cwd=os.path.join(HARNESS, group), env=env(),
